@@ -182,6 +182,22 @@ var Ops = []Op{
 	{"Base().Encode()", func(sh *Shared) []byte { return secp256k1.Base().Encode() }},
 	{"NewElement().Add(E2)", func(sh *Shared) []byte { return secp256k1.NewElement().Add(sh.E2).Encode() }},
 	{"Order()", func(sh *Shared) []byte { return secp256k1.Order() }},
+	// the caller owns every returned slice and may write into it: the write must stay private to this thread
+	{"Order()+overwrite-result", func(sh *Shared) []byte { return takeAndOverwrite(secp256k1.Order()) }},
+	{"E1.Encode()+overwrite-result", func(sh *Shared) []byte { return takeAndOverwrite(sh.E1.Encode()) }},
+	{"S1.Encode()+overwrite-result", func(sh *Shared) []byte { return takeAndOverwrite(sh.S1.Encode()) }},
+}
+
+// takeAndOverwrite returns a copy of b and then inverts every byte of b over its full capacity.
+func takeAndOverwrite(b []byte) []byte {
+	out := append([]byte{}, b...)
+	b = b[:cap(b)]
+
+	for i := range b {
+		b[i] ^= 0xff
+	}
+
+	return out
 }
 
 // Alone returns what op returns when run alone on a private copy of the shared state.
